@@ -8,8 +8,27 @@ sys.path.insert(0, os.path.dirname(os.path.dirname(os.path.dirname(os.path.abspa
 
 
 def replay(model, obligation):
-    r = flows('quick', 0)
-    return {'reproduced': bool(r['violations']), 'detail': '; '.join(r['violations'][:2]) or 'no disagreement in the bounded flows'}
+    _import_cqlengine()
+    from cassandra.cqlengine import statements as st
+    from contracts.c35_persistence import apply_rendered, empty_is_null
+    import itertools
+    fails = []
+    lists = [list(p) for r in range(4) for p in itertools.product('ab', repeat=r)] + [['a', 'b', 'c'], ['c', 'a']]
+    sets = [set(c) for r in range(4) for c in itertools.combinations('abc', r)]
+    for cls, universe in ((st.ListUpdateClause, lists), (st.SetUpdateClause, sets)):
+        for p, v in itertools.product([None] + universe, universe):
+            c = cls('f', type(v)(v), previous=None if p is None else type(p)(p))
+            c.set_context_id(0)
+            ctx = {}
+            c.get_context_size()
+            c.update_context(ctx)
+            got = apply_rendered(None if p is None else type(p)(p), str(c), ctx)
+            if empty_is_null(got) != empty_is_null(v):
+                fails.append('%s previous=%r value=%r renders %s with %r: the cell becomes %r' % (cls.__name__, p, v, str(c), ctx, got))
+                break
+    if not fails:
+        fails = list(flows('quick', 0)['violations'])
+    return {'reproduced': bool(fails), 'detail': '; '.join(fails[:2]) or 'no disagreement'}
 
 
 def _import_cqlengine():
